@@ -69,6 +69,10 @@ def run_scenario(sc: dict[str, Any]) -> dict[str, Any]:
         if toggles:          # the timer is filtered by a label which the scenario takes away and gives back
             kw['labels'] = {'tm': 'yes'}
         kopf.timer(GROUP, VERSION, PLURAL, **kw)(body)
+        if sc.get('sibling'):    # a second timer of the same object, spawned with the first one, which the object leaves alone (its label goes):
+            async def sib(**_):  # a timer is stopped by what concerns IT -- the first one goes on as if it were alone
+                return None
+            kopf.timer(GROUP, VERSION, PLURAL, registry=reg, id='sib', interval=1000, labels={'sb': 'yes'})(sib)
         if sc.get('change_handlers', True):
             kopf.on.create(GROUP, VERSION, PLURAL, registry=reg, id='noop')(sim.handler('noop'))
             kopf.on.update(GROUP, VERSION, PLURAL, registry=reg, id='noop')(sim.handler('noop'))
@@ -96,7 +100,8 @@ def run_scenario(sc: dict[str, Any]) -> dict[str, Any]:
             sim.srv.policy = lpolicy
         op = sim.operator('op1', reg, sim.settings(watching__reconnect_backoff=1))      # whole seconds also when a stream is reopened
         t0 = 1
-        sim.world.at(t0, lambda: sim.create('o1', {'x': 1}, labels={'tm': 'yes'} if toggles else None), 1)
+        labels0 = dict({'tm': 'yes'} if toggles else {}, **({'sb': 'yes'} if sc.get('sibling') else {}))
+        sim.world.at(t0, lambda: sim.create('o1', {'x': 1}, labels=labels0 or None), 1)
         x = [1]
         edit_rvs: list[int] = []
         off_rvs: list[int] = []; on_rvs: list[int] = []
@@ -115,6 +120,12 @@ def run_scenario(sc: dict[str, Any]) -> dict[str, Any]:
             o = sim.set_spec('o1', x=x[0]); edit_rvs.append(int(o['metadata']['resourceVersion']))
         for t in sc.get('changes', []):
             sim.world.at(t, edit, 1)
+
+        def unsib():
+            if sim.obj('o1') is None: return
+            o = sim.edit('o1', lambda b: b['metadata'].setdefault('labels', {}).update(sb='no')); edit_rvs.append(int(o['metadata']['resourceVersion']))
+        if sc.get('sibling'):
+            sim.world.at(sc['sibling'], unsib, 1)
 
         def edit_unseen():          # the change is made while the stream is cut and its version is compacted away: learnt from a re-listing
             from sim.opsim import PLURAL
@@ -194,6 +205,8 @@ def gen_scenarios(seed: int, n: int) -> list[dict[str, Any]]:
         if i % 6 == 2 and conf['interval']:      # the PATCH of a run's result takes time: a sharp timer stays on its grid all the same
             r4 = random.Random(f'timers-lat-{seed}-{i}')
             out[-1].update(result=True, plat=r4.choice([1, 1, 2]), sync=False, delete_at=None, changes=[], relist_changes=[])
+        if i % 6 == 5:      # a sibling timer of the same object is stopped (the object leaves ITS filter): this timer goes on as if alone
+            out[-1]['sibling'] = random.Random(f'timers-sib-{seed}-{i}').randint(3, 20)
         if i % 6 == 4:      # the object leaves the timer's filters (possibly in the middle of a run) and comes back
             r2 = random.Random(f'timers-tog-{seed}-{i}')
             t1 = r2.randint(3, 20); t2 = t1 + r2.choice([1, 2, 3, 6, 10])
